@@ -140,7 +140,16 @@ func VerifC11_TwoInstances() {
 	m.funcs = append(m.funcs,
 		verifFunc{params: []byte{vI32}, export: "init", body: []byte{0x20, 0x00, 0x41, 0x00, 0x41, 0x04, 0xfc, 0x08, 0x01, 0x00}},
 		verifFunc{export: "drop", body: []byte{0xfc, 0x09, 0x01}})
-	bin := verifAddPassiveDataAfterActive(m.encode(), []byte{0xd1, 0xd2, 0xd3, 0xd4})
+	// + a passive ELEMENT segment holding a function that marks its own instance's global, installed by table.init and
+	// reached by call_indirect:  mark: global.set 0 (i32.const 77) ; tinit: table.init 1 (dst 1, src 0, n 1) ; viatab: call_indirect [1]
+	mark := byte(len(m.funcs))
+	m.funcs = append(m.funcs,
+		verifFunc{body: []byte{0x41, 0xcd, 0x00, 0x24, 0x00}},
+		verifFunc{export: "tinit", body: []byte{0x41, 0x01, 0x41, 0x00, 0x41, 0x01, 0xfc, 0x0c, 0x01, 0x00}},
+		verifFunc{export: "viatab", body: []byte{0x41, 0x01, 0x11, mark, 0x00}})
+	m.elems = nil
+	elemSec := vSection(9, vVec([]byte{0x00, 0x41, 0x00, 0x0b, 0x01, 0x00}, []byte{0x01, 0x00, 0x01, mark}))
+	bin := verifAddPassiveDataAfterActive(verifInsertBeforeCode(m.encode(), elemSec), []byte{0xd1, 0xd2, 0xd3, 0xd4})
 	a, err := verifInstantiate(ctx, bin, "one", w.store, w.eng, nil, false)
 	verifrt.Assert(err == nil, "module accepted")
 	if err != nil {
@@ -201,6 +210,11 @@ func VerifC11_TwoInstances() {
 	_, e4 := b.inst.ExportedFunction("init").Call(ctx, 100)
 	r2, e5 := b.inst.ExportedFunction("load").Call(ctx, 100)
 	verifrt.Assert(e4 == nil && e5 == nil && len(r2) == 1 && r2[0] == 0xd4d3d2d1, "the other instance's passive data segment is intact (memory.init copies it)")
+	// a function reference taken from the passive element segment by THIS instance runs in this instance
+	_, e6 := b.inst.ExportedFunction("tinit").Call(ctx)
+	_, e7 := b.inst.ExportedFunction("viatab").Call(ctx)
+	st2, e8 := b.inst.ExportedFunction("state").Call(ctx)
+	verifrt.Assert(e6 == nil && e7 == nil && e8 == nil && len(st2) == 2 && st2[0] == 77, "a function installed from the passive element segment runs in the instance that installed it")
 	verifrt.Cover("isolated")
 }
 
